@@ -1249,8 +1249,9 @@ def gen_multi(seed, idbase=0, nops=250, nmaps=3, name="multi"):
     for nm in names:
         kt = pair_kt if nm in casepair else rng.choice(KTS)
         nh += 1
-        s.op("map", h=nh, db=0, name=nm, kt=kt, params={"buckets": rng.choice([["BucketsSize", 4], ["BucketsSize", 64], ["Capacity", 30]])})
-        maps.append(dict(name=nm, kt=kt, hs=[nh], keys=_mk_keys(s, rng, kt, 10)))
+        pr = {"buckets": rng.choice([["BucketsSize", 4], ["BucketsSize", 64], ["Capacity", 30]])}
+        s.op("map", h=nh, db=0, name=nm, kt=kt, params=pr)
+        maps.append(dict(name=nm, kt=kt, hs=[nh], keys=_mk_keys(s, rng, kt, 10), params=pr, upd=[]))
     vids = [s.newval(x) for x in (0, 3, 20, 21, 100, 1100, 5000)]
     tagn = 0
     for i in range(nops):
@@ -1285,9 +1286,12 @@ def gen_multi(seed, idbase=0, nops=250, nmaps=3, name="multi"):
             for o in others:
                 s.op("digest", dir="d", name=o["name"], tag="pre%d_%s" % (tagn, o["name"]))
         if r < 0.55:
-            s.op("put", h=h, k=k, v=rng.choice(vids))
+            v = rng.choice(vids)
+            s.op("put", h=h, k=k, v=v)
+            m["upd"].append(("put", k, v))
         elif r < 0.72:
             s.op("del", h=h, k=k)
+            m["upd"].append(("del", k, None))
         elif r < 0.86:
             s.op("get", h=rng.choice(m["hs"]), k=k)
         elif r < 0.92:
@@ -1312,6 +1316,20 @@ def gen_multi(seed, idbase=0, nops=250, nmaps=3, name="multi"):
     for o in maps:
         s.op("decode", dir="d", name=o["name"], native=True)
         s.op("child_dump", dir="d", name=o["name"], kt=o["kt"], ks=o["keys"], **{"as": "C11.result"})
+    # solo: the updates of ONE of the maps alone, in a fresh process and directory with the same parameters - its files
+    # must be the ones it has next to its neighbours (what the neighbours stored must not reach them)
+    sm = maps[seed % len(maps)]
+    s.op("open_db", db=0, dir="dS")
+    s.op("map", h=1, db=0, name=sm["name"], kt=sm["kt"], params=sm["params"])
+    for (o, k, v) in sm["upd"]:
+        if o == "put":
+            s.op("put", h=1, k=k, v=v)
+        else:
+            s.op("del", h=1, k=k)
+    s.op("new_process")
+    s.op("digest", dir="d", name=sm["name"], tag="multi")
+    s.op("digest", dir="dS", name=sm["name"], tag="solo")
+    s.op("note", conj="C11.solo", same=["multi", "solo"])
     return s
 
 
@@ -1398,6 +1416,17 @@ def gen_readonly(seed, idbase=0, nb=("BucketsSize", 16), state="dense", kt="byte
             for k in list(live):
                 s.op("del", h=1, k=k)
             live = []
+    if state == "edge":
+        # the lowest occupied bucket sits at the end of a group of 8 / 64 buckets (or is the last one), a few
+        # more above it: what a traversal may remember about "where the first record is" must not change the next one
+        lows = sorted({b for b in (7, 15, 63, 71, 127, n - 1, n - 9) if 0 <= b < n})
+        low = lows[seed % len(lows)]
+        ks = [s.key_in_bucket(8 + j, n, low) for j in range(2)]
+        ks += [s.key_in_bucket(9, n, b) for b in sorted({min(n - 1, low + d) for d in (1, 8, 57)}) if b > low]
+        for k in ks:
+            s.op("put", h=1, k=k, v=rng.choice(vids))
+            live.append(k)
+        keys = ks + keys[:6]
     s.op("new_process")
     s.op("digest", dir="d", name="m", tag="before")
     s.op("decode", dir="d", name="m", native=True)
@@ -1451,7 +1480,7 @@ def gen_readonly(seed, idbase=0, nb=("BucketsSize", 16), state="dense", kt="byte
 
 
 def gen_twice(seed, idbase=0, nops=150, nb=("BucketsSize", 32), kt="bytes", bufs=None, name="twice", nkeys=20, tail=False, same_process=False,
-              interleaved=False):
+              interleaved=False, reloc=False):
     """C18: the same update history with the same parameters is run twice: replica A plainly, replica B in
     another process and directory with read-only calls spliced in; the files must be byte-identical."""
     rng = random.Random(seed)
@@ -1493,6 +1522,19 @@ def gen_twice(seed, idbase=0, nops=150, nb=("BucketsSize", 32), kt="bytes", bufs
             tail_ops.append(("reads", None, None))
             tail_ops.append(("put", nk, rng.choice(tv[3:6])))
             lastk = nk
+    # phase 0 (reloc): key records that exactly fill their slot move when the value file passes 16 KiB (their stored
+    # value offset gets wider), the vacated slots are re-used by new keys of the same lengths; replica B asks for the
+    # statistics (free-slot counts among them), looks keys up and traverses BEFORE and AFTER the slots are vacated
+    reloc_ops = []
+    if reloc:
+        rlens = [9, 10, 11, 12, 13, 14, 15, 16, 19, 27]
+        rk = _mk_keys(s, rng, kt, 10, lens=rlens)[:10]
+        small, mid, bv = s.newval(3), s.newval(40), s.newval(17000)
+        bk = _mk_keys(s, rng, kt, 1, lens=[21])[0]
+        fresh = _mk_keys(s, rng, kt, 10, lens=rlens)[:10]
+        reloc_ops = [("ro", None, None)] + [("put", k, small) for k in rk] + [("ro", None, None), ("put", bk, bv)] + \
+                    [("put", k, mid) for k in rk] + [("ro", None, None)] + [("put", k, small) for k in fresh] + [("ro", None, None)]
+        keys = keys + rk[:3]
     if same_process:
         # replica A runs in a process that has already worked on ANOTHER map in another directory (records of
         # many lengths written, overwritten in place, relocated, deleted, read); replica B runs in a fresh
@@ -1557,6 +1599,14 @@ def gen_twice(seed, idbase=0, nops=150, nb=("BucketsSize", 32), kt="bytes", bufs
             for ck in chainkeys[:12] + chainkeys[-3:]:
                 s.op("get", h=1, k=ck)
                 s.op("includes", h=1, k=ck)
+        for (o, k, v) in reloc_ops:
+            if o == "put":
+                s.op("put", h=1, k=k, v=v)
+            elif rep == "B":
+                s.op("stats", h=1, filling=(n <= 65536))
+                s.op("get", h=1, k=rng.choice(keys))
+                s.op("iter", h=1, flavour=rng.choice(FLAVOURS))
+                s.op("stats", h=1, only=rng.choice(["kfree", "vfree"]))
         for (o, k, v) in tail_ops:
             if o == "put":
                 s.op("put", h=1, k=k, v=v)
@@ -2155,6 +2205,9 @@ def gen_sweep(seed, idbase=0, lens=None, kt="bytes", name="sweep"):
         s.op("get", h=1, k=k)
         s.op("get", h=1, k=sa)
         s.op("get", h=1, k=sb)
+        # read back through the traversals as well (values() has its own reader in some designs)
+        s.op("iter", h=1, flavour="values")
+        s.op("iter", h=1, flavour=("iter", "keys", "iter_mut", "into_iter", "ref_into_iter")[rng.randrange(5)])
         s.op("del", h=1, k=sa)
         s.op("del", h=1, k=k)
         s.op("del", h=1, k=sb)
